@@ -514,4 +514,4 @@ def main(argv):
     except Exception as e:  # a crash of the machinery must not look like a pass
         import traceback
         ctx.broken("check-crash", "the check itself crashed: %r" % (e,), traceback.format_exc()[-3000:])
-    return ctx.finish()
+    return ctx.finish(write_evidence=not prop.startswith("FS") and not prop.endswith("DEV"))
